@@ -85,6 +85,8 @@ def assemble(unit_name, unit):
                 args += ["--key-prefix", piece["prefix"]]
             for o in piece.get("opaque", []):
                 args += ["--opaque", o]
+            for o in piece.get("fn_mono", []):
+                args += ["--fn-mono", o]
             txt = run_vx(args, log_path)
             for a, b in piece.get("subst", []):
                 txt = txt.replace(a, b)
